@@ -71,7 +71,8 @@ def recv_msg(sock, state_overwrites=None, comment=None):
     logger.abusive('Receiving a message: {} ({})', data_len, comment)
     try:
         data = _recv_exactly(sock, data_len)
-    except (ConnectionResetError) as e:
+    except (BrokenPipeError, ConnectionResetError, ConnectionAbortedError, OSError) as e:
+        # the connection can die half way through a message in the same ways as between two messages
         raise ConnectionClosedError() from e
     logger.abusive('Message received ({}), deserializing...', comment)
     msg = remote_pickle.loads(data, extra_kwargs=state_overwrites)
